@@ -317,7 +317,15 @@ def _rw(n, helpers):
             if is_node(b) and b["k"] == "Block" and len(b["stmts"]) == 1 and b["stmts"][0]["k"] == "ExprStmt" and not b["stmts"][0].get("semi") \
                     and not (is_node(b["stmts"][0]["expr"]) and b["stmts"][0]["expr"]["k"] in ("Return",)):
                 a["body"] = b["stmts"][0]["expr"]
+            elif is_node(b) and b["k"] == "Block" and len(b["stmts"]) == 1 and b["stmts"][0]["k"] == "ForLoop":
+                a["body"] = b["stmts"][0]
     if k == "ForLoop":
+        n = _rw_for(n)
+    return _rw_tail(n, k, helpers)
+
+
+def _rw_for(n):
+    if True:
         n["iter"] = _norm_iter(n["iter"])
         # `for (_, v) in map`  ==  `for v in map.into_values()` ; `for (k, _) in map` == `for k in map.into_keys()`
         p = n["pat"]
@@ -331,14 +339,21 @@ def _rw(n, helpers):
             name = ("values" if keep == 1 else "keys") + suffix if meth in ("iter", "iter_mut") else ("into_values" if keep == 1 else "into_keys")
             n["pat"] = p["elems"][keep]
             n["iter"] = {"k": "MethodCall", "receiver": base, "method": name, "args": [], "turbofish": "", "_oid": it.get("_oid") if is_node(it) else None}
-    if k == "ExprStmt":
-        e = n["expr"]
-        if is_node(e) and e["k"] == "MethodCall" and e["method"] == "for_each" and len(e["args"]) == 1 and is_node(e["args"][0]) \
-                and e["args"][0]["k"] == "Closure" and len(e["args"][0]["inputs"]) == 1 and not _contains(e["args"][0]["body"], ("Try", "Return")):
-            cl = e["args"][0]
-            body = cl["body"] if is_node(cl["body"]) and cl["body"]["k"] == "Block" else _block([{"k": "ExprStmt", "expr": cl["body"], "semi": True}])
-            n = {"k": "ForLoop", "pat": cl["inputs"][0], "iter": _norm_iter(e["receiver"]), "body": body, "_oid": n.get("_oid"), "line": n.get("line")}
-            k = "ForLoop"
+    return n
+
+
+def _rw_tail(n, k, helpers):
+    if k == "MethodCall" and n["method"] == "for_each" and len(n["args"]) == 1 and is_node(n["args"][0]) \
+            and n["args"][0]["k"] == "Closure" and len(n["args"][0]["inputs"]) == 1 and not _contains(n["args"][0]["body"], ("Try", "Return")):
+        cl = n["args"][0]
+        body = cl["body"] if is_node(cl["body"]) and cl["body"]["k"] == "Block" else _block([{"k": "ExprStmt", "expr": cl["body"], "semi": True}])
+        n = {"k": "ForLoop", "pat": cl["inputs"][0], "iter": _norm_iter(n["receiver"]), "body": body, "_oid": n.get("_oid"), "line": n.get("line")}
+        k = "ForLoop"
+        n = _rw_for(n)
+    if k == "ExprStmt" and is_node(n["expr"]) and n["expr"]["k"] == "ForLoop":
+        # a loop statement is the loop
+        n = dict(n["expr"], _oid=n.get("_oid", n["expr"].get("_oid")))
+        k = "ForLoop"
     if k == "Block":
         # a nested block that binds nothing (left by inlining a helper) is spliced into its parent
         out = []
